@@ -46,6 +46,13 @@ FILTER_SETUP = {
         " forall(n, Str, n not in %s), 1, 0)" % (O, T),
     ],
     'raises': {},
+    'callsites': {
+        # a registered layer is dropped only for one of the three reasons the statement knows
+        'layers.pop': ["(_arg0 == %s and (%s.non_unit or (len(%s) > 0 and not %s)))"
+                       " or (%s.resume_layer is not None and _arg0 != %s.resume_layer)"
+                       " or (%s.resume_layer is None and len(%s) > 0 and not %s)"
+                       % (UNIT, O, LAYERPAT, ACCEPTED(LAYERPAT, UNIT), O, O, O, LAYERPAT, ACCEPTED(LAYERPAT, '_arg0'))],
+    },
     'loops': {
         '#loop1': [      # child: the names visited so far are gone unless they are the resumed layer
             "forall(n, Str, iff(n in %s, pre(n in %s, '#loop1') and"
@@ -127,48 +134,23 @@ add_test_rule.modifies = ['G.placed']
 ALLK = lambda k: "ALL(found_suites, %s, options, test_accept)" % k
 PLACED_OK = ("forall(i, Int, implies(0 <= i and i < len(G.placed), G.placed[i][2] in suites and"
              " suites[G.placed[i][2]] == G.placed[i][0]))")
-KEYS_USED = ("forall(n, Opt[LayerRef], implies(n in suites, exists(i, Int, 0 <= i and i < len(G.placed) and"
-             " G.placed[i][2] == n)))")
+# no empty suite: every registered name has a placement (explicit witness: the index of its first placement, ghost G.widx)
+KEYS_USED = ("forall(n, Opt[LayerRef], implies(n in suites, n in G.widx and 0 <= G.widx[n] and G.widx[n] < len(G.placed) and"
+             " G.placed[G.widx[n]][2] == n))")
 FRESH = "forall(n, Opt[LayerRef], implies(n in suites, suite_id(suites[n]) < G.nalloc))"
 INJ = "forall(n, Opt[LayerRef], m, Opt[LayerRef], implies(n in suites and m in suites and n != m, suites[n] != suites[m]))"
 NODUPES = "forall(x, Str, x not in dupe_ids)"
 
-FIND_TESTS = {
+FT_COMMON = {
     'property': ['C03'],
     'params': {'options': 'Rec[FindOptions]', 'found_suites': 'Opt[List[Node]]'},
     'returns': 'Dict[Opt[LayerRef],TSuite]',
-    'ghost': {'placed': 'List[Tuple[TSuite,Node,Opt[LayerRef]]]', 'nalloc': 'int'},
+    'ghost': {'placed': 'List[Tuple[TSuite,Node,Opt[LayerRef]]]', 'nalloc': 'int', 'widx': 'Dict[Opt[LayerRef],int]'},
+    'ghost_code': {'suite = suites[layer_name] = unittest.TestSuite()': ['G.widx[layer_name] = len(G.placed)']},
     'locals': {'suites': 'Dict[Opt[LayerRef],TSuite]', 'dupe_ids': 'Set[Str]'},
     'requires': ["len(G.placed) == 0"],
-    'modifies': ['G.placed', 'G.nalloc'],
-    'ensures': [
-        # every selected test is placed exactly once, in discovery order ...
-        "len(G.placed) == len(%s)" % ALLK('len(found_suites)'),
-        "forall(i, Int, implies(0 <= i and i < len(G.placed), G.placed[i][1] == %s[i][0] and G.placed[i][2] == %s[i][1]))"
-        % (ALLK('len(found_suites)'), ALLK('len(found_suites)')),
-        # ... into the suite registered under its own layer name; different names have different suites; no empty suite
-        PLACED_OK.replace('suites', 'result'), INJ.replace('suites', 'result'), KEYS_USED.replace('suites', 'result'),
-    ],
+    'modifies': ['G.placed', 'G.nalloc', 'G.widx'],
     'raises': {'DuplicateTestIDError': []},
-    'callsites': {
-        'suite.addTest': ["layer_name in suites", "suites[layer_name] == suite"],
-    },
-    'loops': {
-        '#loop1': [
-            "implies(%s, len(G.placed) == len(%s))" % (NODUPES, ALLK('_i')),
-            "implies(%s, forall(i, Int, implies(0 <= i and i < len(G.placed), G.placed[i][1] == %s[i][0] and"
-            " G.placed[i][2] == %s[i][1])))" % (NODUPES, ALLK('_i'), ALLK('_i')),
-            PLACED_OK, INJ, KEYS_USED, FRESH,
-        ],
-        '#loop2': {'scratch': ['suite'], 'inv': [
-            "implies(%s, len(G.placed) == len(%s) + _i2)" % (NODUPES, ALLK('_i1')),
-            "implies(%s, forall(i, Int, implies(0 <= i and i < len(G.placed), G.placed[i][1] == %s[i][0] and"
-            " G.placed[i][2] == %s[i][1])))" % (NODUPES, ALLK('_i1 + 1'), ALLK('_i1 + 1')),
-            PLACED_OK, INJ, KEYS_USED, FRESH,
-            "_it2 == FLAT(found_suites[_i1], 1, UnitTestsRef(), options, test_accept)",
-            "0 <= _i1 and _i1 < len(found_suites)",
-        ]},
-    },
     'rules': {
         'remove_stale_bytecode': 'NOEFFECT',          # under contract in the C15 check
         'unittest.TestSuite': new_suite_rule, 'suite.addTest': add_test_rule,
@@ -177,6 +159,35 @@ FIND_TESTS = {
     },
     'expr_rules': {"['Duplicate test IDs found:'] + sorted(dupe_ids)": 'fresh:List[Str]'},
 }
+FLAT_IT = ["_it2 == FLAT(found_suites[_i1], 1, UnitTestsRef(), options, test_accept)", "0 <= _i1 and _i1 < len(found_suites)"]
+
+# two contracts on the same function (views), each with the invariants its own claims need: small queries stay fast
+FIND_TESTS = dict(FT_COMMON, **{       # where the tests go: the suite registered under the test's own layer name
+    'ensures': [PLACED_OK.replace('suites', 'result'), INJ.replace('suites', 'result'),
+                "forall(n, Opt[LayerRef], implies(n in result, exists(i, Int, 0 <= i and i < len(G.placed) and G.placed[i][2] == n)))"],
+    'callsites': {'suite.addTest': ["layer_name in suites", "suites[layer_name] == suite"]},
+    'loops': {'#loop1': [PLACED_OK, INJ, KEYS_USED, FRESH],
+              '#loop2': {'scratch': ['suite'], 'inv': [PLACED_OK, INJ, KEYS_USED, FRESH]}},
+})
+FIND_TESTS_ORDER = dict(FT_COMMON, **{  # which tests, how often, in which order: exactly FLAT(s1) ++ ... ++ FLAT(sk)
+    'ensures': [
+        "len(G.placed) == len(%s)" % ALLK('len(found_suites)'),
+        "forall(i, Int, implies(0 <= i and i < len(G.placed), G.placed[i][1] == %s[i][0] and G.placed[i][2] == %s[i][1]))"
+        % (ALLK('len(found_suites)'), ALLK('len(found_suites)')),
+    ],
+    'loops': {
+        '#loop1': [
+            "implies(%s, len(G.placed) == len(%s))" % (NODUPES, ALLK('_i')),
+            "implies(%s, forall(i, Int, implies(0 <= i and i < len(G.placed), G.placed[i][1] == %s[i][0] and"
+            " G.placed[i][2] == %s[i][1])))" % (NODUPES, ALLK('_i'), ALLK('_i')),
+        ],
+        '#loop2': {'scratch': ['suite'], 'inv': [
+            "implies(%s, len(G.placed) == len(%s) + _i2)" % (NODUPES, ALLK('_i1')),
+            "implies(%s, forall(i, Int, implies(0 <= i and i < len(G.placed), G.placed[i][1] == %s[i][0] and"
+            " G.placed[i][2] == %s[i][1])))" % (NODUPES, ALLK('_i1 + 1'), ALLK('_i1 + 1')),
+        ] + FLAT_IT},
+    },
+})
 
 
 LISTING_SETUP = {
@@ -226,6 +237,7 @@ def register(E):
                          "claims on normal return because duplicated ids only grow and a non-empty set ends in "
                          "DuplicateTestIDError")
     E.add_contract('find.find_tests', FIND_TESTS)
+    E.add_contract('find.find_tests@order', FIND_TESTS_ORDER)
     ro = E.load_sidecar(os.path.join(HERE, 'runner_order.py'))
     E.contracts['runner.Runner.ordered_layers'].trusted = True      # verified in this check under the runner_order sidecar
     E.contracts['runner.Runner.ordered_layers'].requires = ["WF()"]  # (the name-injectivity assumption is recorded there)
